@@ -711,6 +711,11 @@ def templates(op, spox):
     t("c_value_be_i8", (), ("I3",), lambda a, p: [op.constant(value=np.array([2, 0, 1], dtype=">i8"))])
     t("c_value_be_f4", (), ("F6",), lambda a, p: [op.constant(value=np.arange(6).astype(">f4") * 0.5)])
     t("init_be_f4", (), ("F3",), lambda a, p: [spox._future.initializer(np.array([1.5, -2.0, 3.0], dtype=">f4"))])
+    # ... of the 16-bit element types as well (another packing path in make_tensor / from_array)
+    t("c_value_be_i2", (), ("F3",), lambda a, p: [op.cast(op.constant(value=np.array([1, 2, 250], dtype=">i2")), to=np.float32)])
+    t("c_value_be_u2", (), ("F3",), lambda a, p: [op.cast(op.constant(value=np.array([3, 256, 65535], dtype=">u2")), to=np.float32)])
+    t("c_value_be_f2", (), ("F3",), lambda a, p: [op.cast(op.constant(value=np.array([1.5, -2.0, 0.25], dtype=">f2")), to=np.float32)])
+    t("init_be_i2", (), ("F3",), lambda a, p: [op.cast(spox._future.initializer(np.array([7, -300, 1024], dtype=">i2")), to=np.float32)])
 
     # LARGE tensors (several KiB) in the non-native byte order / as strided views: the rows read back must be the numbers of the array
     _big_f = (np.arange(1100 * 3) % 17).reshape(1100, 3).astype(np.float32) * 0.5
